@@ -306,7 +306,11 @@ func fieldClass(st types.Type, i int) string {
 	} else {
 		name = types.TypeString(st, nil)
 	}
-	return name + "." + st.Underlying().(*types.Struct).Field(i).Name()
+	fname := st.Underlying().(*types.Struct).Field(i).Name()
+	if fname == "_" {
+		fname = fmt.Sprintf("_%d", i) // blank fields are distinct locations
+	}
+	return name + "." + fname
 }
 
 func namedKey(t types.Type) string {
